@@ -779,6 +779,10 @@ class Builtins:
                              "isalpha", "isalnum", "isupper", "islower", "isspace", "isidentifier", "rfind"):
             r = getattr(s.py, name)(*[a.py for a in args])  # type: ignore
             return self.from_py(r)
+        us0 = s.units() if s.py is None else None
+        if us0 is not None and len(us0) <= 8 and name in ("replace", "splitlines", "strip", "lstrip", "rstrip") \
+                and all(isinstance(a, VStr) and a.py is not None for a in args):
+            return self.units_method(s, us0, name, [a.py for a in args])
         if name in ("startswith", "endswith"):
             alts = args[0].items if isinstance(args[0], VTuple) else [args[0]]
             ts = []
@@ -839,6 +843,96 @@ class Builtins:
             f = z3.Function("str_" + name, SEQ, z3.BoolSort())
             return VBool(f(s.t))
         raise Unsupported(f"str method {name}")
+
+    LINEBREAKS = [10, 13, 11, 12, 0x1C, 0x1D, 0x1E, 0x85, 0x2028, 0x2029]
+    SPACES = [9, 10, 11, 12, 13, 0x1C, 0x1D, 0x1E, 0x1F, 32, 0x85, 0xA0, 0x1680, 0x2028, 0x2029, 0x202F, 0x205F, 0x3000]
+
+    def units_method(self, s: VStr, us: List[Any], name: str, pyargs: List[str]) -> V:
+        """str.replace / splitlines / strip on a short string given character by character (symbolic
+        characters): the result is computed exactly, forking on what each character is."""
+        def term(u: Any) -> Any:
+            return z3.IntVal(u) if isinstance(u, int) else u
+
+        def is_in(u: Any, codes: List[int], ranges: Any = ()) -> bool:
+            if isinstance(u, int):
+                return u in codes or any(a <= u <= b for a, b in ranges)
+            conds = [u == c for c in codes] + [z3.And(u >= a, u <= b) for a, b in ranges]
+            return self.path.branch(z3.Or(*conds))
+
+        def rope(xs: List[Any]) -> VStr:
+            return VStr([chr(x) if isinstance(x, int) else z3.Unit(x) for x in xs], is_bytes=s.is_bytes)
+
+        if name == "replace":
+            old, new = pyargs[0], pyargs[1]
+            if not old:
+                raise Unsupported("replace of the empty string")
+            k = len(old)
+            out: List[Any] = []
+            i = 0
+            while i < len(us):
+                hit = False
+                if i + k <= len(us):
+                    conds = []
+                    concrete_no = False
+                    for j in range(k):
+                        u = us[i + j]
+                        if isinstance(u, int):
+                            if u != ord(old[j]):
+                                concrete_no = True
+                                break
+                        else:
+                            conds.append(u == ord(old[j]))
+                    if not concrete_no:
+                        hit = self.path.branch(z3.And(*conds)) if conds else True
+                if hit:
+                    out.extend(ord(c) for c in new)
+                    i += k
+                else:
+                    out.append(us[i])
+                    i += 1
+            return rope(out)
+        if name in ("strip", "lstrip", "rstrip"):
+            lo, hi = 0, len(us)
+            if pyargs:
+                codes, space_ranges = [ord(c) for c in pyargs[0]], []
+            else:
+                codes, space_ranges = self.SPACES, [(0x2000, 0x200A)]
+            if name in ("strip", "lstrip"):
+                while lo < hi and is_in(us[lo], codes, space_ranges):
+                    lo += 1
+            if name in ("strip", "rstrip"):
+                while hi > lo and is_in(us[hi - 1], codes, space_ranges):
+                    hi -= 1
+            return rope(us[lo:hi])
+        if name == "splitlines":
+            if pyargs:
+                raise Unsupported("splitlines(keepends)")
+            lines: List[V] = []
+            cur: List[Any] = []
+            i = 0
+            pending = False
+            while i < len(us):
+                u = us[i]
+                if is_in(u, self.LINEBREAKS):
+                    lines.append(rope(cur))
+                    cur = []
+                    pending = False
+                    # "\r\n" is one line break
+                    if i + 1 < len(us):
+                        is_cr = (u == 13) if isinstance(u, int) else self.path.branch(u == 13)
+                        if is_cr:
+                            nxt = us[i + 1]
+                            is_lf = (nxt == 10) if isinstance(nxt, int) else self.path.branch(nxt == 10)
+                            if is_lf:
+                                i += 1
+                else:
+                    cur.append(u)
+                    pending = True
+                i += 1
+            if pending:
+                lines.append(rope(cur))
+            return VList(lines)
+        raise Unsupported(name)
 
     def rope_affix(self, s: VStr, p: VStr, prefix: bool) -> Any:
         """s.startswith(p) / s.endswith(p), peeling concrete rope parts before asking the seq theory."""
